@@ -51,4 +51,9 @@ def runs(tier):
 
 
 def main(tier):
-    return poolcheck.run('C06', tier, runs(tier), ASSUME, RULE)
+    return poolcheck.run('C06', tier, runs(tier), ASSUME, RULE, traces=(800, 6) if tier == 'quick' else (8000, 8))
+
+
+def selftest():
+    from .. import tracecheck
+    return tracecheck.selftest()
